@@ -102,7 +102,7 @@ def attribute(mism):
     for step, items in by_step.items():
         roots = None
         for key in ROOT_ORDER:
-            sel = [(t, d) for t, d in items if key in t]
+            sel = [(t, d) for t, d in items if key in t or (key == "C04:batch" and "fill-portfolio" in t)]
             if sel:
                 roots = sel
                 break
